@@ -48,7 +48,7 @@ LEVEL = "exploration"
 ENGINE = "sansio"
 BUDGET = {"quick": (350, 18), "thorough": (40000, 220)}
 WORKERS = {"quick": 4, "thorough": 16}
-REQUIRED = ["history.mixed_scheme_same_destination", "history.https_request_seen_inside_tunnel_tls", "replay.option_history.auth-then-mode", "replay.cases", "replay.forwarded", "replay.cred_to_proxy", "connect.answered_by_addon_2xx", "connect.refused_by_addon", "upstream.closes_after_response", "tunnel.reconnected", "hook.server_disconnected", "option_change.unset_to_set", "option_change.set_to_other", "option_change.set_to_unset", "option_change.applied", "search.conn", "search.tunnel", "search.tls_plain", "cred.in_connect_head", "cred.in_plain_to_proxy", "cred.to_reverse_target", "forwarded.no_cred_expected"]
+REQUIRED = ["replay.mode_spec_not_lower_case", "replay.flow_carries_recorded_via", "history.mixed_scheme_same_destination", "history.https_request_seen_inside_tunnel_tls", "replay.option_history.auth-then-mode", "replay.cases", "replay.forwarded", "replay.cred_to_proxy", "connect.answered_by_addon_2xx", "connect.refused_by_addon", "upstream.closes_after_response", "tunnel.reconnected", "hook.server_disconnected", "option_change.unset_to_set", "option_change.set_to_other", "option_change.set_to_unset", "option_change.applied", "search.conn", "search.tunnel", "search.tls_plain", "cred.in_connect_head", "cred.in_plain_to_proxy", "cred.to_reverse_target", "forwarded.no_cred_expected"]
 TECHNIQUE = "runtime monitoring: sans-io conversations with real addons, unique-token search on every wire / tunnel / decrypted stream"
 RULE = (
     "case = (mode, upstream_auth timeline: initially unset or a unique random credential, 0-2 runtime changes between items "
@@ -529,12 +529,18 @@ def run_case(ctx, tctx, ua, chain):
 REC_MODES = ["upstream:http://proxy.test:8080", "upstream:http://oldproxy.test:3128", "upstream:https://proxy.test:8443", "regular",
              "reverse:http://target.test:80", "reverse:http://oldtarget.test:80", "transparent", "socks5"]
 CUR_MODES = ["upstream:http://proxy.test:8080", "upstream:https://proxy.test:8443", "regular", "regular", "reverse:http://target.test:80",
-             "reverse:https://target.test:443", "transparent", "socks5"]
+             "reverse:https://target.test:443", "transparent", "socks5",
+             # mode specs are not case-sensitive (ProxyMode.parse lower-cases the mode name)
+             "Upstream:http://proxy.test:8080", "UPSTREAM:https://proxy.test:8443", "Regular", "Reverse:http://target.test:80"]
 
 
-def classify_replay(rec, cur, conn_addr, cur_target):
+def classify_replay(rec, cur, conn_addr, cur_target, rec_via=None):
     """Mechanism from the history: mode the flow was recorded in, mode mitmproxy runs in now, where the credential went."""
-    if rec.startswith("upstream") and not cur.startswith("upstream"):
+    if cur != cur.lower() and cur.lower().startswith("upstream"):
+        return "client-replay-while-the-upstream-mode-spec-is-not-spelled-in-lower-case"
+    if rec_via is not None and not cur.lower().startswith("upstream") and conn_addr == tuple(rec_via[1]):
+        return "client-replay-goes-via-the-upstream-proxy-recorded-in-the-flow-while-not-running-in-upstream-mode"
+    if rec.startswith("upstream") and not cur.lower().startswith("upstream"):
         return "client-replay-of-flow-recorded-in-upstream-mode-while-not-running-in-upstream-mode"
     if rec.startswith("reverse") and (cur_target is None or conn_addr != cur_target):
         return "client-replay-of-flow-recorded-in-reverse-mode-to-a-host-that-is-not-the-current-reverse-target"
@@ -576,8 +582,10 @@ def run_replay_case(ctx, tctx, ua, chain):
         tctx.options.update(mode=[prev], upstream_auth=old)
         tctx.options.update(mode=[cur])
         tctx.options.update(upstream_auth=cred)
-    cur_proxy = (PROXY_HTTPS if "https" in cur else PROXY_HTTP) if cur.startswith("upstream") else None
-    cur_target = (TARGET_HTTPS if "https" in cur else TARGET_HTTP) if cur.startswith("reverse") else None
+    cur_proxy = (PROXY_HTTPS if "https" in cur else PROXY_HTTP) if cur.lower().startswith("upstream") else None
+    cur_target = (TARGET_HTTPS if "https" in cur else TARGET_HTTP) if cur.lower().startswith("reverse") else None
+    if cur != cur.lower():
+        ctx.count("replay.mode_spec_not_lower_case")
     ctx.count("replay.cases")
 
     def responder(k, msg, peer):
@@ -591,7 +599,7 @@ def run_replay_case(ctx, tctx, ua, chain):
 
     def server_factory(drv, conn):
         addr = tuple(conn.address[:2])
-        p = P.ProxyPeer(responder, None, tunnel_factory) if addr in (PROXY_HTTP, PROXY_HTTPS) else P.OriginPeer(responder)
+        p = P.ProxyPeer(responder, None, tunnel_factory) if addr in (PROXY_HTTP, PROXY_HTTPS) or addr[0] == "oldproxy.test" else P.OriginPeer(responder)
         drv.connected(conn)
         return P.TlsServerPeer(p) if addr[1] in TLS_PORTS else p
 
@@ -614,11 +622,18 @@ def run_replay_case(ctx, tctx, ua, chain):
         f.request.headers["Host"] = authority(host, port, scheme)
         f.request.content = r.choice([b"", b"b:" + tag.encode()])
         f.client_conn.proxy_mode = mode_specs.ProxyMode.parse(rec)
+        rec_via = None
+        if rec.startswith("upstream") and r.random() < 0.8:
+            # a flow recorded in upstream mode carries the upstream proxy it was sent through
+            rm = mode_specs.ProxyMode.parse(rec)
+            rec_via = (rm.scheme, rm.address)
+            f.server_conn.via = rec_via
+            ctx.count("replay.flow_carries_recorded_via")
         tunnelled = rec.startswith("upstream") and r.random() < 0.3
         if tunnelled:
             ua.http_connected(f)  # the flow was recorded inside a CONNECT tunnel of that client connection
         f.is_replay = "request"  # what ClientPlayback.start_replay does
-        flows_desc.append((tag, scheme, host, port, "tunnelled" if tunnelled else "direct"))
+        flows_desc.append((tag, scheme, host, port, "tunnelled" if tunnelled else "direct", rec_via))
         h = ReplayHandler(f, tctx.options)
         d = LifecycleDriver(lambda c, h=h: h.layer, client=h.layer.context.client, options=tctx.options, rng=r, addons=chain,
                             server_factory=server_factory, schedule=r.choice(["random", "fifo"]), max_steps=2000)
@@ -641,7 +656,7 @@ def run_replay_case(ctx, tctx, ua, chain):
             app, inner_peer = raw, peer
             if isinstance(peer, P.TlsServerPeer):
                 if any(n in raw for n in needles):
-                    ctx.violation("credential-in-tls-ciphertext", {**witness, "conn": repr(addr)}, classify_replay(rec, cur, addr, cur_target))
+                    ctx.violation("credential-in-tls-ciphertext", {**witness, "conn": repr(addr)}, classify_replay(rec, cur, addr, cur_target, rec_via))
                 app, inner_peer = peer.plaintext(), peer.inner
                 ctx.count("search.tls_plain")
             msgs, payload, rest = messages_outside_tunnel(app)
@@ -655,7 +670,7 @@ def run_replay_case(ctx, tctx, ua, chain):
                         ctx.count("replay.cred_to_proxy" if cur_proxy else "replay.cred_to_reverse_target")
                     else:
                         seen.add("other-conn")
-                        ctx.violation("credential-in-replayed-request-to-non-proxy-connection", {**witness, "conn": repr(addr), "bytes": mraw[:400]}, classify_replay(rec, cur, addr, cur_target))
+                        ctx.violation("credential-in-replayed-request-to-non-proxy-connection", {**witness, "conn": repr(addr), "bytes": mraw[:400]}, classify_replay(rec, cur, addr, cur_target, rec_via))
             hidden = [rest]
             if payload is not None:
                 ctx.count("search.tunnel")
@@ -669,7 +684,7 @@ def run_replay_case(ctx, tctx, ua, chain):
             for data in hidden:
                 if data and any(n in data for n in needles):
                     seen.add("tunnel")
-                    ctx.violation("credential-in-replayed-request-inside-tunnel", {**witness, "conn": repr(addr), "bytes": data[:400]}, classify_replay(rec, cur, addr, cur_target))
+                    ctx.violation("credential-in-replayed-request-inside-tunnel", {**witness, "conn": repr(addr), "bytes": data[:400]}, classify_replay(rec, cur, addr, cur_target, rec_via))
     if forwarded:
         ctx.count("replay.forwarded", forwarded)
     sig = ("replay", rec.split("//")[0] + ("-old" if "old" in rec else ""), cur.split("//")[0], tuple(sorted({(x[1], x[4]) for x in flows_desc})), tuple(sorted(seen)))
